@@ -23,6 +23,9 @@ P = {
  "C11": ("fault_enumeration", "rapid PBT with fault injection: (a) syntax-error splices at generated positions with a model-free oracle (SyntaxError, no output); (b) 23 runtime fault kits injected into syntactic slots chosen uniformly over 29 slot kinds, differential against a reference model that decides whether the slot is reached",
    "(a) 6k (200k thorough) splices of 9 recipe families into valid tracing programs at any token boundary / statement start; (b) 12k (300k) faulted programs: if refjq reaches the kit the run must be a RuntimeError with exactly the prior output, if the slot is dead the program must behave as without the fault; the evidence lists the kit x slot-kind matrix. Fault enumeration: every fault kind at every syntactic slot kind, over generated surrounding programs.",
    "Trusted: refjq for reachability and prior output; every kit is a runtime error by the documents. A stray comma on a line of its own after a print statement is legal by the grammar (it continues the print list) and is not used.", "5/C11"),
+ "C13": ("exploration", "rapid PBT, metamorphic: random legal layouts (spacing, tabs, CR, newlines, comments, ';' vs newline, quote style) of one token sequence must behave like the canonical layout; differential against refjq for what literals denote",
+   "8k (200k thorough) programs - a lexical family (odd number spellings glued to operators, keyword-like identifiers, strings over all bytes, valid and invalid escapes in live and dead positions, bare print before further statements) plus the control-flow, call, match, value and printf generators - each laid out 4 (8) random ways under the property's own exceptions; stdout and outcome class must equal the canonical layout's. Exploration (metamorphic).",
+   "Trusted: the renderer's gluing rules (two tokens may touch unless they would fuse) and the property's list of places where a newline is significant. Error messages and positions are not compared (C12).", "5/C13"),
  "C15": ("exploration", "rapid stateful (model-based) PBT: one list operation per step on five arrays, results and all contents printed after every step, differential against a reference list model",
    "6k (120k thorough) histories of up to 20 (60) operations - push, pop, popfirst, index read/write with every index class, length, contains, sort, and method calls nested in each other's arguments - on arrays held by variables, by the document and by an object; after every step the result and every array with its length are compared with refjq's ideal list, and the final document with the reference root. Exploration (stateful model-based).",
    "Trusted: refjq's list model (DESIGN.md 4.8, section 3.6 for contains, string form for sort). Arrays are reached through the name or path that holds them, as the property states; aliasing is C09's subject (KF-array-alias excluded dynamically).", "5/C15, 4.8"),
